@@ -103,8 +103,31 @@ def judge(contract, params, args, outcome):
     return True, failed
 
 
+def dense_pairs():
+    """Second witness family (longer operands): one operand is a contiguous run, or a run with one hole, of up to
+    24 values; the other has 1-2 values around / inside it - both orientations.  Reaches code that only engages on
+    long runs (block skips, unrolled steps)."""
+    lo, hi = 100, 124
+    runs = []
+    for a in range(lo, hi + 1, 1):
+        for b in range(a + 1, hi + 1):
+            if (b - a) in (1, 2, 3, 7, 8, 9, 10, 15, 16, 17, 24) or b == hi:
+                runs.append(list(range(a, b)))
+    holes = []
+    for r in runs:
+        if len(r) >= 9:
+            for h in (1, len(r) // 2, len(r) - 2):
+                holes.append(r[:h] + r[h + 1:])
+    small = [[x] for x in range(lo - 2, hi + 2)] + [[x, y] for x in range(lo - 1, hi + 1, 3) for y in range(x + 1, hi + 2, 4)]
+    long_ = runs[:: max(1, len(runs) // 160)] + holes[:: max(1, len(holes) // 60)]
+    for s_ in small:
+        for l_ in long_:
+            yield s_, l_
+            yield l_, s_
+
+
 def search(fname, contract, params, variant="prod", scope="increasing", limit=3):
-    """Exhaustive small scope. Returns (n_calls, n_in_requires, [hits])."""
+    """Exhaustive small scope (plus the dense family). Returns (n_calls, n_in_requires, [hits])."""
     arrs = increasing_arrays() if scope == "increasing" else any_arrays() + increasing_arrays(maxlen=2)
     kinds = [contract.get("params", {}).get(p, "array") for p in params]
     domains = []
@@ -116,7 +139,14 @@ def search(fname, contract, params, variant="prod", scope="increasing", limit=3)
         elif k == "bool":
             domains.append([False, True])
     hits, n, nreq = [], 0, 0
-    for args in itertools.product(*domains):
+    narr = [i for i, k in enumerate(kinds) if k in ("array", "array_or_none")]
+    extra = []
+    if len(narr) == 2:
+        for a, b in dense_pairs():
+            base = [False] * len(kinds)
+            base[narr[0]], base[narr[1]] = a, b
+            extra.append(tuple(base))
+    for args in itertools.chain(itertools.product(*domains), extra):
         args = list(args)
         n += 1
         outcome = call_real(fname, args, variant)
